@@ -89,12 +89,21 @@ def _choose_table(ex):
     return tabs[names[ex.choose(len(names), tag="table")]]
 
 
+def sid_of(x):
+    """the id an item of a sensor collection stands for: a row, an (id, row) pair of a dict view, or the id itself"""
+    if isinstance(x, tuple):
+        return x[0]
+    if isinstance(x, str):
+        return x
+    return x.id_
+
+
 def ids_of(sensors):
     """ids in order of first occurrence (a table may list an id twice; the later row then overwrites the value)"""
     out = []
     for s in sensors:
-        if s.id_ not in out:
-            out.append(s.id_)
+        if sid_of(s) not in out:
+            out.append(sid_of(s))
     return out
 
 
@@ -103,14 +112,14 @@ class MapResponse:
     """keys(result) == ids(sensors), no exception — given that every row's read raises nothing but ValueError
     (proved row by row, C11 rows units).  The call-site precondition is C14: every row's read footprint lies inside
     the fetched window of the response's command."""
-    props = ("C11", "C14")
+    props = ("C11", "C14", "C15")
     args = {"response": "any", "sensors": _choose_table}
     raises_only = ()
 
     def requires(response, sensors):
         return window_ok(response, sensors)
 
-    def ensures_C11_every_id_present(response, sensors, result):
+    def ensures_C11_C15_every_id_present(response, sensors, result):
         return list(result.keys()) == ids_of(sensors)
 
     def make_result(ex, bound):
@@ -197,7 +206,7 @@ class EtReadSettingsData:
         return list(data.keys()) == ids_of(_items[0:_i])
 
     def loop0_state(ex, env, i):
-        return {"data": {s.id_: ex.fresh_any("val_" + s.id_) for s in env["_items"][:i]}}
+        return {"data": {sid_of(s): ex.fresh_any("val_" + sid_of(s)) for s in env["_items"][:i]}}
 
 
 @contract("goodwe.dt.DT.read_settings_data")
@@ -210,7 +219,7 @@ class DtReadSettingsData:
         return list(data.keys()) == ids_of(_items[0:_i])
 
     def loop0_state(ex, env, i):
-        return {"data": {s.id_: ex.fresh_any("val_" + s.id_) for s in env["_items"][:i]}}
+        return {"data": {sid_of(s): ex.fresh_any("val_" + sid_of(s)) for s in env["_items"][:i]}}
 
 
 # ---- public coroutines as seen by connect()/discover(): proved by the scenario units of pyvc.inverter_harness -----------
